@@ -64,7 +64,7 @@ def _spec_choices(rng):
         seeds = corpus.accepted_plus(path)
         if seeds:
             raw = rng.choice(seeds)
-            faults = wirefault.token_faults(rng, raw) if wirefault.is_text(raw) and rng.random() < 0.7 else \
+            faults = (wirefault.typed_faults(rng, raw) if rng.random() < 0.4 else wirefault.token_faults(rng, raw)) if wirefault.is_text(raw) and rng.random() < 0.7 else \
                 wirefault.gen_faults(rng, raw, max_faults=1)
             return ['mutated', path, raw.hex(), faults]
     if roll < 0.6:
